@@ -221,11 +221,19 @@ def k3(shape):
         l = eng.choice(f'l{tag}', S) + 1
         i = eng.choice(f'i{tag}', l)
         branch, root = run(cache.branch_and_root(l, i))
-        rb, _tsc, rroot = ref_branch(leaves[:l], i)
+        rb, rtsc, rroot = ref_branch(leaves[:l], i)
         eng.note(f'bar({l},{i})')
         eng.prove(z3_and([deep_eq(root, rroot), deep_eq(list(branch), rb)]),
                   'K3: MerkleCache result differs from from-scratch computation',
                   {'signature': 'K3-cache', 'order': order, 'a': a, 't': t, 'l': l, 'i': i})
+        # the TSC form through the cache: same root, duplicated nodes marked
+        tbranch, troot = run(cache.branch_and_root(l, i, tsc_format=True))
+        star = lambda v: isinstance(v, bytes) and v == b'*'   # noqa
+        marks_ok = len(tbranch) == len(rtsc) and all(star(x) == star(y) for x, y in zip(tbranch, rtsc))
+        eng.prove(marks_ok and z3_and([deep_eq(troot, rroot)] +
+                                      [deep_eq(x, y) for x, y in zip(tbranch, rtsc) if not star(y)]),
+                  'K3: MerkleCache TSC branch differs from the from-scratch one',
+                  {'signature': 'K3-cache-tsc', 'order': order, 'a': a, 't': t, 'l': l, 'i': i})
         symx.observe(f'branch{tag}', (l, i, len(branch), branch[0] if (l > 1 and (1 << cache.depth_higher) > 1 or l == 2) and False else None))
 
     for op in order:
